@@ -411,3 +411,116 @@ def H4_debits(ctx):
                 ops['rev'] += 1
     ctx.ob('H4', bb, 'pre-debit-balance-reconstruction', ops['saturating_add'] >= 2 and ops['saturating_sub'] >= 2 and ops['rev'] >= 1, f'{dict(ops)}', site=bb.loc(bb.b['lo']),
            what='the balance before the first debit is the final balance with the surviving journal undone newest-first (debits added back, credits removed, BalanceChange restored)')
+
+
+def je_fields(t):
+    return sorted({s[2].split('.')[-1] for s in subterms(t) if s[0] == 'field' and 'JournalEntry::' in s[2]})
+
+
+def tx_fields(t):
+    return sorted({s[2].split('.')[-1] for s in subterms(t) if s[0] == 'field' and ('TxEnv.' in s[2] or 'TxKind' in s[2])})
+
+
+def H4b_journal_tables(ctx):
+    """exact per-entry tables of the journal undo and of the root-transfer recogniser"""
+    bb = ctx.fn('delegated_safety::reserve::balance_before_entry')
+    rows = set()
+    for p in feasible(bb.paths(max_visits=2)):
+        ent = [a for a in p.events if a.kind == 'atom' and a.d['term'][0] == 'discr' and len(a.d['term']) > 2 and a.d['term'][2].endswith('JournalEntry')]
+        if not ent:
+            continue
+        var = ent[0].d['outcome']
+        conds = {}
+        for a in p.events:
+            if a.kind == 'atom':
+                n = norm_cmp(a)
+                if n and (n[2] == ('arg', 3) or n[1] == ('arg', 3)):
+                    other = n[1] if n[2] == ('arg', 3) else n[2]
+                    for fld in je_fields(other):
+                        conds.setdefault(fld, n[0])
+        op = None
+        for e in p.events:
+            if e.kind == 'call' and e.d['callee'].endswith('::saturating_add'):
+                op = ('add', tuple(je_fields(e.d['args'][1])))
+            if e.kind == 'call' and e.d['callee'].endswith('::saturating_sub'):
+                op = ('sub', tuple(je_fields(e.d['args'][1])))
+            if e.kind == 'assign' and e.d['place'] == ('var', 'balance') and 'old_balance' in je_fields(e.d['value']):
+                op = ('set', ('old_balance',))
+        rows.add((var, tuple(sorted(conds.items())), op[0] if op else None, op[1] if op else ()))
+    exp_ops = {
+        ('BalanceTransfer', 'add', ('balance',)), ('BalanceTransfer', 'sub', ('balance',)),
+        ('AccountDestroyed', 'add', ('had_balance',)), ('AccountDestroyed', 'sub', ('had_balance',)), ('BalanceChange', 'set', ('old_balance',)),
+    }
+    got_ops = {(v, o, f) for v, c, o, f in rows if o}
+    dir_ok = True
+    for v, c, o, f in rows:
+        d = dict(c)
+        if v == 'BalanceTransfer' and o == 'add' and not (d.get('from') == 'Eq' and d.get('to') == 'Ne'):
+            dir_ok = False
+        if v == 'BalanceTransfer' and o == 'sub' and not (d.get('to') == 'Eq' and d.get('from') == 'Ne'):
+            dir_ok = False
+        if v == 'AccountDestroyed' and o == 'add' and d.get('address') != 'Eq':
+            dir_ok = False
+        if v == 'AccountDestroyed' and o == 'sub' and not (d.get('target') == 'Eq' and d.get('address') == 'Ne'):
+            dir_ok = False
+        if v == 'BalanceChange' and o == 'set' and d.get('address') != 'Eq':
+            dir_ok = False
+    ctx.ob('H4', bb, 'journal-undo-table', got_ops == exp_ops and dir_ok, f'ops {sorted(map(str, got_ops))} direction-ok={dir_ok} rows={sorted(map(str, rows))}', site=bb.loc(bb.b['lo']),
+           what='undoing the surviving journal: a transfer/destroy OUT of the account adds the amount back, one INTO it subtracts it, a BalanceChange restores old_balance; a swapped direction inflates or deflates the protected pre-debit balance')
+    r = ctx.fn('delegated_safety::reserve::is_root_value_transfer')
+    rows = set()
+    for p in feasible(r.paths()):
+        ret = [e for e in p.events if e.kind == 'ret'][0].d['value']
+        conds = []
+        for a in p.events:
+            if a.kind == 'atom':
+                n = norm_cmp(a)
+                if n:
+                    conds.append((tuple(je_fields(n[1]) + je_fields(n[2])), n[0], tuple(tx_fields(n[1]) + tx_fields(n[2]))))
+                elif a.d['term'][0] == 'discr':
+                    conds.append(('discr', a.d['outcome']))
+        rv = show(ret)
+        rk = rv if rv in ('true', 'false') else ('eq(to,target)' if 'to' in je_fields(ret) else rv[:30])
+        rows.add((tuple(conds), rk))
+    need = {
+        ((('discr', '!BalanceTransfer'),), 'false'),
+    }
+    txt = sorted(map(str, rows))
+    has_from_ne = any((('from',), 'Ne', ('caller',)) in c and rk == 'false' for c, rk in rows)
+    has_val_ne = any((('balance',), 'Ne', ('value',)) in c and rk == 'false' for c, rk in rows)
+    has_call = any(('discr', 'Call') in c and rk == 'eq(to,target)' and (('from',), 'Eq', ('caller',)) in c and (('balance',), 'Eq', ('value',)) in c for c, rk in rows)
+    has_create = any(('discr', 'Create') in c and rk == 'true' and (('from',), 'Eq', ('caller',)) in c and (('balance',), 'Eq', ('value',)) in c for c, rk in rows)
+    ctx.ob('H4', r, 'root-transfer-table', need <= rows and has_from_ne and has_val_ne and has_call and has_create and len(rows) == 5, f'{txt}'[:400], site=r.loc(r.b['lo']),
+           what='the excluded transfer is exactly (BalanceTransfer ∧ from = tx.caller ∧ amount = tx.value ∧ (Call(target) ⇒ to = target | Create))')
+    fs = [b for b in ctx.facts.production() if b['fn'].endswith('::delegated_debits_since') and b['kind'] == 'assoc']
+    f = ctx.fn(fs[0])
+    src = set()
+    for p in live(f.paths(max_visits=2)):
+        ent = [a for a in p.events if a.kind == 'atom' and a.d['term'][0] == 'discr' and len(a.d['term']) > 2 and a.d['term'][2].endswith('JournalEntry') and a.d['outcome'] in ('BalanceTransfer', 'AccountDestroyed')]
+        for a in ent:
+            i0 = idx_of(p, a)
+            guards = []
+            took = None
+            for x in p.events[i0 + 1:i0 + 16]:
+                if x.kind == 'atom':
+                    n = norm_cmp(x)
+                    if n and n[0] in ('Ne', 'Eq') and je_fields(x.d['term']):
+                        guards.append(n[0] + ':' + ','.join(je_fields(x.d['term'])))
+                    t = x.d['term']
+                    neg = False
+                    while t[0] == 'un' and t[1] == 'Not':
+                        t = t[2]
+                        neg = not neg
+                    if t[0] == 'call' and t[1].endswith('::is_zero') and x.d['outcome'] in ('true', 'false'):
+                        z = (x.d['outcome'] == 'true') != neg
+                        guards.append(('zero' if z else 'nonzero') + ':' + ','.join(je_fields(t)))
+                if x.kind == 'assign' and x.d['place'] == ('var', 'source') and x.d['value'][0] == 'agg' and x.d['value'][2] == 'Some':
+                    took = tuple(je_fields(x.d['value']))
+                    break
+                if x.kind == 'call' and x.d['callee'].endswith('::next'):
+                    break
+            if took is not None:
+                src.add((a.d['outcome'], tuple(guards), took))
+    exp = {('BalanceTransfer', ('Ne:from,to', 'nonzero:balance'), ('from',)), ('AccountDestroyed', ('nonzero:had_balance',), ('address',))}
+    ctx.ob('H4', f, 'debit-source-conditions', src == exp, f'{sorted(map(str, src))}'[:400], site=f.loc(f.b['lo']),
+           what='a debit is a non-zero BalanceTransfer with from ≠ to (source = from) or an AccountDestroyed with non-zero had_balance (source = the destroyed address)')
